@@ -603,7 +603,7 @@ func (r *bkRig) watch(S uint64, P []byte, lazy bool, between, after func()) *bw 
 	if w.err != nil {
 		w.dead = true
 		r.sc.lab(lW("LCtxDelete", w.id)) // Watch cancelled its context: the hub drops the subscription
-		r.sc.obs(obs{w: w.id, status: u64(0)})
+		r.sc.obs(obs{w: w.id, S: w.S, P: w.P, status: u64(0), hasGot: true}) // refused: nothing has been received
 		r.kinds["refused"] = true
 		cancel()
 		return w
@@ -656,7 +656,7 @@ func (r *bkRig) settle(w *bw, quiet bool) {
 	time.Sleep(300 * time.Microsecond)
 	got, closed := w.snapshot()
 	r.emitDrain(w)
-	r.sc.obs(obs{w: w.id, status: u64(1), got: got, hasGot: true, closed: bp(closed), quiet: quiet})
+	r.sc.obs(obs{w: w.id, S: w.S, P: w.P, status: u64(1), got: got, hasGot: true, closed: bp(closed), quiet: quiet, wire: w.wire != nil})
 }
 
 // finish cancels the watch and waits for the stream to end; everything fanned out before must have arrived.
@@ -676,7 +676,7 @@ func (r *bkRig) finish(w *bw, quiet bool) {
 	got, closed := w.snapshot()
 	r.emitDrain(w)
 	r.sc.labs(lW("LProc", w.id), lW("LConsume", w.id))
-	r.sc.obs(obs{w: w.id, status: u64(1), got: got, hasGot: true, closed: bp(closed), quiet: quiet})
+	r.sc.obs(obs{w: w.id, S: w.S, P: w.P, status: u64(1), got: got, hasGot: true, closed: bp(closed), quiet: quiet})
 	w.dead = true
 	r.sc.note("w%d cancelled", w.id)
 }
@@ -1112,7 +1112,7 @@ func bkOverflow(w *coll, scratch string, parkDeleter bool) {
 		lib.List([]string{lW("LConsume", wt.id), lW("LProc", wt.id), lW("LProc", wt.id)})))
 	r.sc.nlab += 3 * (total + 3)
 	r.sc.labs(lW("LProc", wt.id), lW("LConsume", wt.id))
-	r.sc.obs(obs{w: wt.id, status: u64(1), got: got, hasGot: true, closed: bp(closed), quiet: false})
+	r.sc.obs(obs{w: wt.id, S: wt.S, P: wt.P, status: u64(1), got: got, hasGot: true, closed: bp(closed), quiet: false})
 	wt.dead = true
 	wt.cancel()
 	r.sc.labs(lW("LCancel", wt.id), lW("LCtxDelete", wt.id))
